@@ -55,7 +55,11 @@ def props_for(module, kind, fn):
         # Next<&T> impls whose clauses are, by definition, the Next<f64> clauses at the documented getter
         return ['C10']
     if kind == 'value':
-        return list(VALUE.get(short, []))
+        p = list(VALUE.get(short, []))
+        # the one-price-bar clause of C10 rests on the bar-path value clause of these indicators (with lemmas/barscalar.rs)
+        if fn is not None and fn.impl.startswith('Next<&T>') and short in (FAST, SLOW, TR, ATR, KC) and 'C10' not in p:
+            p.append('C10')
+        return p
     if kind == 'range':
         return list(RANGE.get(short, []))
     if kind == 'degen':
